@@ -236,4 +236,21 @@ PROPS = {
             'proved: the recipe-dependent raise sites of plan generation are unreachable under every shipped default recipe for all graphs (finite decision table, vm_compute over the regenerated recipes/policy/registry); graph-dependent raise sites are covered by correspondence and the end-to-end oracle, not proved unreachable',
             'sample_advanced_usage_recipe.json is scoped to one sample model and is exercised by C12 (loads), not here'],
     },
+    'C19': {
+        'steps': [{'script': 'corr_graph.py', 'timeout': 1500, 'timeout_thorough': 6000},
+                  {'script': 'corr_plan.py', 'timeout': 1500, 'timeout_thorough': 6000},
+                  {'script': 'oracle_c19.py', 'timeout': 1500, 'timeout_thorough': 6000}],
+        'required_theorems': ['C19_step_is_local_to_its_subgraph', 'C19_opcode_table_only_grows',
+                              'C19_tensor_info_is_per_subgraph'],
+        'rule': GRAPH_RULE + ('; C19 oracle: generated 2-3-subgraph models (constants shared across subgraphs in half of '
+                              'them) x shipped or random recipes x real or synthetic statistics; quantize(model) vs '
+                              'quantize(extracted single-subgraph model i) for every i, compared structurally up to '
+                              'opcode/buffer renumbering (constants by content); non-trivial = the subgraph was changed '
+                              'by quantization; distinct = distinct canonical subgraph'),
+        'trusted_base': COMMON_TB + GRAPH_TB,
+        'assumptions': GRAPH_ASSUME + [
+            'tensor names are unique model-wide (params_generator rejects the model otherwise; C19_unique_names_needed shows the map is not per-subgraph without it)',
+            'constants shared between subgraphs with conflicting uses are rejected (C15/C08 F17-F18); those cases are counted and skipped',
+            'locality of plan generation across subgraphs (global result dict keyed by name) is tied by correspondence P on multi-subgraph models and by the oracle, not proved'],
+    },
 }
